@@ -7,6 +7,7 @@ CHECK = {
         "verification hashes are those a leader computes from the state at the transaction's start index; wrong ('forged') hashes are generated only for keys/listings written inside the transaction's window, where every replica must verify them (a wrong hash on untouched data is trusted by design of the fast path); the simulated leader's listings never contain the chunk storage prefix",
         "LowestActiveIndex is shipped as a correct leader computes it when it proposes the entry (min start of the transactions open then, capped by the index its FSM has applied)",
         "snapshots of an empty data bucket are not generated (the sink creates no file for them)",
+        "snapshot-busy-sender: plain puts and deletes only (replaying an entry the snapshot already contains is harmless for them, which is what the design of the snapshot's index relies on); the window is reached by goroutine timing and measured per case",
         "leader-log: single-node live backend and schedule generator of C08's raft-live unit (no chunked entries there); the replicas start from an empty store plus one synthetic put at the leader's index at case start, which is sound because every case works under its own key prefix and never lists the root",
     ],
     "units": [
@@ -29,5 +30,14 @@ CHECK = {
              quick={"checks": 4, "shards": 1, "cap": 600},
              thorough={"checks": 6, "shards": 8, "cap": 2400},
              no_ulimit=True),
+        unit("snapshot-busy-sender", "raft", ["raft/c09_replicas_test.go", "raft/c09_busysender_test.go"], "^TestVerif_C09_BusySender$",
+             quick={"checks": 150, "shards": 1, "cap": 600, "gomaxprocs": 4},
+             thorough={"checks": 1500, "shards": 8, "cap": 2400, "gomaxprocs": 2},
+             no_ulimit=True,
+             env={"BAO_RAFT_DISABLE_MAP_POPULATE": "1"},
+             # whether the concurrent entries land inside the window of Open is a matter of goroutine timing; the
+             # verdict is a fact about the states actually reached, so an unreproduced failure still counts
+             flaky_is_violation=True,
+             floors={"snapshot-busy-sender": {"nontrivial": 0.10}}),
     ],
 }
